@@ -1,4 +1,4 @@
-CONSTANTS MaxRows = 2 MaxLen = 2 DTs = {"b1", "i1", "u1", "i8", "f8"}
+CONSTANTS MaxRows = 2 MaxLen = 2 DTs = {"b1", "i1", "u1", "i8", "f8", "i2"}
 INIT Init
 NEXT Next
 INVARIANT TypeOK
